@@ -335,10 +335,15 @@ class RefCache:
             return False
         return self.set(k, v, expire, tag, now)
 
-    def get(self, k, default, now, stats):
+    def get(self, k, default, now, stats, policy=None):
         if self.vis(k, now):
             if stats:
                 self.hits += 1
+            # C09: a read counts for the usage-based policies (and only under them is it recorded)
+            if policy == 'least-recently-used':
+                self.d[k].access = now
+            elif policy == 'least-frequently-used':
+                self.d[k].count += 1
             return self.d[k]
         if stats:
             self.misses += 1
@@ -350,11 +355,15 @@ class RefCache:
         self.d[k].expire = None if expire is None else now + expire
         return True
 
-    def incr(self, k, delta, default, now):
+    def incr(self, k, delta, default, now, policy=None):
         if self.vis(k, now):
             it = self.d[k]
             it.value += delta
-            it.store = now
+            it.store = now          # incr reads the value and stores a new one: a store and a read
+            if policy == 'least-recently-used':
+                it.access = now
+            elif policy == 'least-frequently-used':
+                it.count += 1
             return it.value
         if default is None:
             raise KeyError(k)
@@ -380,7 +389,26 @@ class RefCache:
         return len(gone)
 
 
+def _cmp_columns(c, ref, where):
+    """Row metadata against the reference: expiry, tag, and what the eviction policies order by (a set /
+    successful add is a fresh store: stored and used now, not read since; a read hit counts under the
+    usage-based policies)."""
+    rows = c._sql('SELECT rowid, store_time, expire_time, access_time, access_count, tag FROM Cache ORDER BY rowid').fetchall()
+    items = list(ref.d.items())
+    if len(rows) != len(items):
+        return None         # reported by the key comparison
+    for (rowid, st_, et, at, ac, tag), (k, it) in zip(rows, items):
+        exp = (it.store, it.expire, it.access, it.count, it.tag)
+        got = (st_, et, at, ac, tag)
+        if got != exp:
+            return '%s: row of key %r has (store_time, expire_time, access_time, access_count, tag) = %r, reference %r' % (where, k, got, exp)
+    return None
+
+
 def _cmp_state(c, ref, now, where):
+    bad = _cmp_columns(c, ref, where)
+    if bad:
+        return bad
     keys = list(c)
     if not (len(keys) == len(ref.d) and all(same(x, y) for x, y in zip(keys, list(ref.d)))):
         return '%s: iteration %r, reference %r' % (where, keys[:12], list(ref.d)[:12])
@@ -432,7 +460,7 @@ def _history(seed, steps, policy, stats, big, core, diskcache, cull_limit=0):
                 if got != exp:
                     return where + ': add returned %r, reference %r' % (got, exp)
             elif op in ('get', 'getx'):
-                it = ref.get(k, None, now, stats)
+                it = ref.get(k, None, now, stats, policy)
                 if op == 'get':
                     got = c.get(k, default='MISS')
                     exp = 'MISS' if it is None else it.value
@@ -454,7 +482,7 @@ def _history(seed, steps, policy, stats, big, core, diskcache, cull_limit=0):
                 delta = rnd.choice([1, 2, -1]) * (1 if op == 'incr' else -1)
                 default = rnd.choice([0, 10, None])
                 try:
-                    exp = ref.incr(k, delta, default, now)
+                    exp = ref.incr(k, delta, default, now, policy)
                 except KeyError:
                     exp = KeyError
                 try:
@@ -591,6 +619,18 @@ def _cull_relation(core, diskcache, tier):
                         c.set('k%d' % i, b'v' * 200, expire=ttl)
                         meta['k%d' % i] = dict(store=clock[0], access=clock[0], count=0, exp=None if ttl is None else clock[0] + ttl)
                     for i in rnd.sample(range(nexp, 30), 8):
+                        clock[0] += 1
+                        c.get('k%d' % i)
+                        if policy == 'least-recently-used':
+                            meta['k%d' % i]['access'] = clock[0]
+                        if policy == 'least-frequently-used':
+                            meta['k%d' % i]['count'] += 1
+                    # overwriting an item is a fresh store: stored and used now, never read since
+                    for i in rnd.sample(range(nexp, 30), 5):
+                        clock[0] += 1
+                        c.set('k%d' % i, b'w' * 200)
+                        meta['k%d' % i].update(store=clock[0], access=clock[0], count=0)
+                    for i in rnd.sample(range(nexp, 30), 4):
                         clock[0] += 1
                         c.get('k%d' % i)
                         if policy == 'least-recently-used':
@@ -1365,6 +1405,15 @@ def C08(tier):
         c.set('x2', big('2'))                      # lazy cull of the expired file-backed item
         with c.transact():
             c.set('n1', big('n'))
+        # every kind of file-backed value: the recorded size is the size of the file in bytes
+        import io
+        c.set('txt', 'x' * 100)
+        c.set('utf', 'é' * 50 + '漢字' * 20)        # more bytes than characters
+        c.set('nl', 'a\r\nb\n' * 20)
+        c.add('utf2', '\U0001f600' * 30)
+        c.push('ü' * 64)
+        c.set('obj', list(range(100)))
+        c.set('stream', io.BytesIO(b'z' * 300), read=True)
         w = [str(x.message) for x in c.check()]
         if w:
             bad = 'check() after the scenario reports %r' % (w[:3],)
@@ -1377,7 +1426,7 @@ def C08(tier):
         core.time.time = real
         shutil.rmtree(d, ignore_errors=True)
     out.append(result('C08.standin.replace_and_removal_scenario', bad is None,
-                      'one fault-free scenario touching every replace / removal site with file-backed values', 24, bad))
+                      'one fault-free scenario touching every replace / removal site with file-backed values of every kind (bytes, ASCII / non-ASCII / newline text, pickles, streams)', 31, bad))
     return out
 
 
